@@ -26,7 +26,7 @@ RULE = ('precedence: for each of 12 keys (9 documented, 3 unknown) a seeded choi
         'or a prefix matched; distinct by canonical case')
 ASSUMPTIONS = ['prefix items are non-empty and contain no comma', 'equality of poll cadence is judged in logical terms '
                '(timer thread alive and >= 3 polls within a generous watchdog), not by wall-clock period']
-REQUIRE = {'two_start_sessions': 5, 'late_environment_reads': 30, 'function_settings_read_twice': 4, 'precedence_reads': 400, 'behaviour_sessions': 20, 'classifications': 5000, 'classified_after_other_files': 1500, 'prefix_matched': 1500,
+REQUIRE = {'frame_short_names_compared': 1000, 'two_start_sessions': 5, 'late_environment_reads': 30, 'function_settings_read_twice': 4, 'precedence_reads': 400, 'behaviour_sessions': 20, 'classifications': 5000, 'classified_after_other_files': 1500, 'prefix_matched': 1500,
            'exclusion_won': 200, 'reclassified_snapshots': 40, 'hosts_with_unnormalised_file_names': 1}
 SHARD_TIMEOUT = {'quick': 400, 'thorough': 2400}
 
@@ -448,7 +448,9 @@ def child_behaviour(arg):
 # ---------------------------------------------------------------- (c) classification
 ROOTS = ['/srv/app', '/srv/app/pkg', '/srv/app/pkg/sub', '/srv/other', '/opt/lib/site-packages', '/srv/app2',
          '/srv/ap', '/home/u/proj', '/srv/app/pkg/mo']     # (a prefix is text: it may end inside a file name)
-FILES = ['main.py', 'pkg/mod.py', 'pkg/sub/deep.py', 'x.py', 'site-packages/lib/a.py', 'pkg/other.py']
+FILES = ['main.py', 'pkg/mod.py', 'pkg/sub/deep.py', 'x.py', 'site-packages/lib/a.py', 'pkg/other.py',
+         # (the text of a prefix can come up again further down the path: only the leading occurrence is cut)
+         'srv/app/tool.py', 'vendor/srv/app/pkg/mod.py', 'home/u/proj/home/u/proj/m.py']
 
 
 def case_classify(seed, out, spec):
@@ -510,6 +512,28 @@ def case_classify(seed, out, spec):
         out.violation('classify:short-path', '%s shortened to %r, the rule allows %r' % (path, got_short, sorted(shorts)),
                       witness, replay)
         return
+    # the shortened name as the snapshot's frames carry it (the collector's own reading of the same classification)
+    try:
+        from deep.processor.frame_collector import FrameCollector
+
+        class _Source:
+            def is_app_frame(self, filename):
+                return service.is_app_frame(filename)
+
+        reader = FrameCollector(_Source(), None)
+    except BaseException:  # noqa - constructed differently on this tree: the frames are still compared by C02
+        reader = None
+    if reader is not None:
+        try:
+            frame_short, frame_app = reader.parse_short_name(path)
+        except BaseException as e:  # noqa
+            out.violation('classify:raised', 'parse_short_name(%r) raised %r' % (path, e), witness, replay)
+            return
+        out.count('frame_short_names_compared')
+        if frame_short not in shorts or bool(frame_app) != app:
+            out.violation('classify:short-path', '%s: a frame of this file is shortened to %r (app=%r), the rule allows %r '
+                          '(app=%r)' % (path, frame_short, frame_app, sorted(shorts), app), witness, replay)
+            return
     out.count('classifications')
     if any(path.startswith(p) for p in inc + exc + [app_root]):
         out.count('prefix_matched')
